@@ -197,6 +197,13 @@ def tlc_tv(trace_path, module="ApiTrace", cfg="ApiTrace.cfg", timeout=1200, xmx=
     gf = [(m.group(1), int(m.group(2)), m.group(3) or "") for m in _re_guard.finditer(out)]
     m = _re_diam.search(out)
     consumed = int(m.group(1)) if m else None
+    mi = re.search(r"Invariant (\w+) is violated", out)
+    if mi:
+        ms = None
+        for ms in re.finditer(r"/\\ step = (\d+)", out):
+            pass
+        consumed = int(ms.group(1)) if ms else consumed
+        gf.append(("Invariant." + mi.group(1), (consumed or 0), ""))
     res = {"rc": r["rc"], "total": nlines, "consumed": consumed, "guardfails": gf, "wall": r["wall"],
            "generated": r["generated"], "distinct": r["distinct"], "out": out}
     if r["timeout"]:
